@@ -832,7 +832,7 @@ impl<'a> Poly<'a> {
 
     pub fn div_mod_xn(p: &'a Poly<'a>, q: &Poly<'a>) -> Self {
         let mut z = vec![MInt::default(); p.c.len()];
-        let mut tmp = vec![MInt::default(); 5 * p.c.len()];
+        let mut tmp = vec![MInt::default(); 6 * p.c.len()];
         Self::_div_mod_xn(p.r, &mut z, &p.c, &q.c, &mut tmp);
         Poly { r: p.r, c: z }
     }
